@@ -225,7 +225,7 @@ a unit of their last place of `x` -/
 structure SciOk (m : Nat) (e : Int) (m' : Nat) (e' : Int) (d : Nat) : Prop where
   hN1 : 10 ^ d ≤ (sci m' e' d).1
   hN2 : (sci m' e' d).1 < 10 ^ (d + 1)
-  hK1 : -300 ≤ (sci m' e' d).2
+  hK1 : -310 ≤ (sci m' e' d).2
   hK2 : (sci m' e' d).2 ≤ 320
   hacc : 2 * absdiff ((sci m' e' d).1 * (2 ^ (-(-1074 : Int)).toNat * T ((sci m' e' d).2 - d)))
       (units (-1074) m e * 10 ^ 400) ≤ 2 ^ (-(-1074 : Int)).toNat * T ((sci m' e' d).2 - d)
@@ -240,7 +240,7 @@ theorem sciText_digits (m' : Nat) (e' : Int) (d : Nat) (h1 : -400 ≤ (sci m' e'
   · exact Cfi.natDigits_isDigit _ y hy
   · exact x3 y hy
 
-/-- **E-notation float fields**: for a normal double below `2^1013` in magnitude, up to twelve
+/-- **E-notation float fields**: for every normal double (`2^-1022` and more), up to twelve
 declared decimals and a text that fits the field, the text written is `size` wide, parses to
 `r = round(x, decimals − ⌊log10 |x|⌋)`, and writing `r` gives the same text again. -/
 theorem fltE_core (f : Field) (dec : Nat) (fmt c : Char) (hk : f.kind = .flt dec fmt [c])
@@ -311,6 +311,7 @@ theorem fltE_core (f : Field) (dec : Nat) (fmt c : Char) (hk : f.kind = .flt dec
         (by rw [ofDigits_natDigits]; exact hback)]
       rfl
     · apply renderText_fltE f dec fmt c hk hfmt neg m' e' hok.hm0 (.fin neg m' e') _ hfit
+      have hk308 := klog_le_308 m' e' hok.hm0 hok.hm hok.he1 hok.he2
       rw [pyRound_nd neg m' e' _ (by omega) (by omega)]
       unfold nd53 at hself
       rw [hself]; rfl
